@@ -48,8 +48,11 @@ def run_simple(pid, tier, plan, replay=None):
         val_states = sum(r[3] for r in results)
         violations, knowns, observations = [], {}, {}
         bad = {}
+        infra = re.compile(plan["infra"]) if plan.get("infra") else None
         for label, trace, verdicts, gen, n in results:
             for sid, line, clause in verdicts:
+                if infra and infra.match(clause):
+                    raise Infra("the model and the observation channel disagree (%s at line %d of %s): not a verdict" % (clause, line, trace))
                 if own.match(clause):
                     if clause in known:
                         knowns[clause] = knowns.get(clause, 0) + 1
